@@ -257,16 +257,13 @@ func (s *Sim) batchFilter(op *Op) (fi *FilterInst, f Filterer, rels []relPair, q
 	}
 	fi = s.filters[abs(op.F)%len(s.filters)]
 	f = fi.A
-	if op.W == 1 || !fi.A.CanRegister() {
+	if op.W == 1 {
 		f = fi.B
 	}
-	if !f.CanRegister() {
+	if !fi.Typed() {
 		return nil, nil, nil, nil, nil, false
 	}
-	extra, er := s.queryRels(fi, op.QR, true)
-	if extra == nil && len(op.QR) > 0 && er == nil {
-		return nil, nil, nil, nil, nil, false
-	}
+	extra, er := s.queryRels(fi, op.QR, f)
 	rels = append(append([]relPair{}, fi.Rels...), extra...)
 	sel = s.M.Select(&fi.Spec, rels)
 	return fi, f, rels, er, sel, true
